@@ -215,6 +215,87 @@ func init() {
 		eq := app("=", KBool, 0, rv, rf)
 		return Ite(lt, mkBV(64, ^uint64(0)), Ite(eq, mkBV(64, 0), mkBV(64, 1)))
 	})
+	// Budget(id, maxSteps, maxMillis, f): f must finish within maxSteps executed SSA
+	// instructions and without exceeding the call-depth bound (natively: maxMillis).
+	regVerif("Budget", func(e *Engine, fn *ssa.Function, a []Value, s ssa.Instruction) Value {
+		id := constStr(e, a[0], "budget id", s)
+		limit := e.concreteInt(a[1], s, "budget steps")
+		saved := e.stepCap
+		start := e.steps
+		e.stepCap = e.steps + int(limit)
+		depth, stack := e.depth, len(e.stack)
+		exceeded := ""
+		func() {
+			defer func() {
+				if r := recover(); r != nil {
+					if pe, ok := r.(pathEnd); ok && pe.kind == "budget" {
+						exceeded = pe.msg
+						e.depth = depth
+						e.stack = e.stack[:stack]
+						return
+					}
+					panic(r)
+				}
+			}()
+			e.call(a[3], nil, s)
+		}()
+		e.stepCap = saved
+		o := e.obl(id, "assert")
+		o.Checks++
+		if exceeded == "" {
+			o.Unsat++
+			e.notes = append(e.notes, fmt.Sprintf("%s: %d steps", id, e.steps-start))
+			return nil
+		}
+		o.Sat++
+		if len(o.Witnesses) < e.cfg.MaxWitness {
+			w := e.witness(e.pc)
+			w.Msg = exceeded
+			w.Where = e.posOf(s)
+			o.Witnesses = append(o.Witnesses, w)
+		}
+		e.abort("stop", "budget exceeded")
+		return nil
+	})
+	regVerif("ExpectBudget", func(e *Engine, fn *ssa.Function, a []Value, s ssa.Instruction) Value {
+		id := constStr(e, a[0], "budget id", s)
+		limit := e.concreteInt(a[1], s, "budget steps")
+		saved := e.stepCap
+		start := e.steps
+		e.stepCap = e.steps + int(limit)
+		depth, stack := e.depth, len(e.stack)
+		exceeded := ""
+		func() {
+			defer func() {
+				if r := recover(); r != nil {
+					if pe, ok := r.(pathEnd); ok && pe.kind == "budget" {
+						exceeded = pe.msg
+						e.depth = depth
+						e.stack = e.stack[:stack]
+						return
+					}
+					panic(r)
+				}
+			}()
+			e.call(a[3], nil, s)
+		}()
+		e.stepCap = saved
+		o := e.obl(id, "expect")
+		o.Checks++
+		if exceeded == "" {
+			o.Unsat++
+			e.notes = append(e.notes, fmt.Sprintf("%s: %d steps", id, e.steps-start))
+			return nil
+		}
+		o.Sat++
+		if len(o.Witnesses) < e.cfg.MaxWitness {
+			w := e.witness(e.pc)
+			w.Msg = exceeded
+			w.Where = e.posOf(s)
+			o.Witnesses = append(o.Witnesses, w)
+		}
+		return nil
+	})
 	regVerif("Symbolic", func(e *Engine, fn *ssa.Function, a []Value, s ssa.Instruction) Value { return tTrue })
 	regVerif("Thorough", func(e *Engine, fn *ssa.Function, a []Value, s ssa.Instruction) Value { return mkBool(e.cfg.Thorough) })
 
@@ -259,6 +340,16 @@ func init() {
 		return mkBool(ok)
 	})
 
+	// protogen.Options.New: documented to return (plugin, error); arbitrary outcome
+	reg("(google.golang.org/protobuf/compiler/protogen.Options).New", func(e *Engine, fn *ssa.Function, a []Value, s ssa.Instruction) Value {
+		if e.decide(e.freshBool("options_new_fails")) {
+			return Tuple{Ptr{}, e.newErrorString(mkStr("protogen: request rejected"))}
+		}
+		t := e.namedType("google.golang.org/protobuf/compiler/protogen", "Plugin")
+		c := new(Value)
+		*c = zero(t)
+		return Tuple{Ptr{P: c}, Iface{}}
+	})
 	// ---------- protogen recording stubs ----------
 	reg("(*google.golang.org/protobuf/compiler/protogen.Plugin).NewGeneratedFile", func(e *Engine, fn *ssa.Function, a []Value, s ssa.Instruction) Value {
 		t := e.namedType("google.golang.org/protobuf/compiler/protogen", "GeneratedFile")
